@@ -16,12 +16,17 @@ import (
 	"rare/pkg/extractor"
 	"rare/pkg/extractor/batchers"
 	"rare/pkg/readahead"
+
+	"verifharness/vh"
 )
 
-func init() {
-	commands["c04-replay"] = c04Replay
-	commands["c04-trace"] = c04Trace
+func main() {
+	vh.Main(vh.Commands{"replay": c04Replay, "trace": c04Trace})
 }
+
+type M = vh.M
+
+var B = vh.B
 
 var errInjected = errors.New("injected read failure")
 
@@ -153,7 +158,7 @@ func c04Replay(args []string) error {
 	var mism []mismatch
 	n, distinct := 0, map[string]bool{}
 	var samples []json.RawMessage
-	err := readNd(*in, func(raw json.RawMessage) error {
+	err := vh.ReadNd(*in, func(raw json.RawMessage) error {
 		var v c04Vector
 		if err := json.Unmarshal(raw, &v); err != nil {
 			return err
@@ -175,7 +180,7 @@ func c04Replay(args []string) error {
 			}
 			same := len(o.held) == len(v.Toks)
 			for i := 0; same && i < len(v.Toks); i++ {
-				same = eqInts(B(o.copies[i]), v.Toks[i])
+				same = vh.EqInts(B(o.copies[i]), v.Toks[i])
 			}
 			if !same {
 				cp := make([][]int, len(o.copies))
@@ -185,7 +190,7 @@ func c04Replay(args []string) error {
 				add("tokens", cp)
 			} else {
 				for i := range v.Toks {
-					if !eqInts(gotHeld[i], v.Toks[i]) {
+					if !vh.EqInts(gotHeld[i], v.Toks[i]) {
 						add("overwritten", M{"k": i, "now": gotHeld[i]})
 						break
 					}
@@ -209,7 +214,7 @@ func c04Replay(args []string) error {
 	if err != nil {
 		return err
 	}
-	writeJSON(*out, M{"runs": n, "distinct_nontrivial": len(distinct), "mismatches": mism, "samples": samples})
+	vh.WriteJSON(*out, M{"runs": n, "distinct_nontrivial": len(distinct), "mismatches": mism, "samples": samples})
 	return nil
 }
 
@@ -289,12 +294,12 @@ func c04Trace(args []string) error {
 	maxLen := fs.Int("maxlen", 300, "max stream length")
 	big := fs.Int("big", 0, "number of production-wiring traces (128KiB buffer through the batcher)")
 	fs.Parse(args)
-	w, err := newNdWriter(*out)
+	w, err := vh.NewNdWriter(*out)
 	if err != nil {
 		return err
 	}
 	defer w.Close()
-	r := newRand(4)
+	r := vh.NewRand(4)
 	tid := 0
 	for i := 0; i < *n; i++ {
 		tid++
@@ -382,6 +387,6 @@ func c04Trace(args []string) error {
 		}
 		w.Write(M{"event": "end"})
 	}
-	fmt.Println(w.n)
+	fmt.Println(w.N)
 	return nil
 }
